@@ -138,6 +138,8 @@ pub struct RTrace {
     pub evs: Vec<Ev>,
     /// number of source `read` calls made before each event was returned (parallel to `evs`)
     pub reads_at: Vec<usize>,
+    /// had the source already returned its final Ok(0) when each event was returned
+    pub ended_at: Vec<bool>,
     pub reads: Vec<ReadLog>,
     pub rstats: ReadStats,
     pub read_calls: usize,
@@ -270,6 +272,7 @@ pub fn run_reader_t<T: Spec>(s: &ReaderSetup) -> RTrace {
 
     let mut evs: Vec<Ev> = Vec::new();
     let mut reads_at: Vec<usize> = Vec::new();
+    let mut ended_at: Vec<bool> = Vec::new();
     let mut steps = 0usize;
     let mut step_cap_hit = false;
 
@@ -297,6 +300,7 @@ pub fn run_reader_t<T: Spec>(s: &ReaderSetup) -> RTrace {
         ($ev:expr) => {{
             let ev = $ev;
             reads_at.push(it.get_ref().calls);
+            ended_at.push(it.get_ref().ended);
             let stop = matches!(ev, Ev::Panic(_));
             evs.push(ev);
             steps += 1;
@@ -376,6 +380,7 @@ pub fn run_reader_t<T: Spec>(s: &ReaderSetup) -> RTrace {
     RTrace {
         evs,
         reads_at,
+        ended_at,
         read_calls: src.calls,
         source_ended: src.ended,
         budget_exceeded: src.budget_exceeded,
